@@ -3,8 +3,7 @@
 from harness import common, gens, pattern, recutil
 from harness.props import C02, C03
 
-EXTRA_OBLIGATION_FILES = ("Props/C17_kits.v",)
-
+EXTRA_OBLIGATION_FILES = ("Props/C17_kits.v", "Props/C17_src.v",)
 LEVEL_NOTE = ("THIN THEOREMS + DIFFERENTIAL: the model's typing and assembly are total functions whose only failures are "
               "the documented errors (proved: queries on a rejected record are the error, queries on an accepted record "
               "of any class of the common shape are defined, an assembly never ends in an internal error; all kit and "
